@@ -21,6 +21,8 @@ structure WGhost where
   paid : Int := 0           -- staked asset paid out by withdrawals
   donD : Int := 0           -- staked asset given to the contract outside the protocol
   fwd : Nat := 0            -- staked asset forwarded toward the staker (stakes and net rewards)
+  setAside : Nat := 0       -- expected unbonding amounts of all submitted batches
+  rebaseN : Int := 0        -- what ResumeContract declared beyond the forwarded stake
 
 structure WInv (w : World) (g : WGhost) : Prop where
   pkt : WPkt w
@@ -29,20 +31,17 @@ structure WInv (w : World) (g : WGhost) : Prop where
   n2 : (w.bal w.self w.c.config.proto.ibcDenom : Int) + g.swept + g.paid = owedD w.c + g.donD
   f1 : locW w.c.config.native.staker w.c.config.proto.ibcDenom w.pkts
         + locC w.c.config.native.staker w.c.config.proto.ibcDenom w.c = g.fwd
+  n1 : (w.c.st.totalNative : Int) + g.setAside + g.swept = g.fwd + g.rebaseN
 
-/-- the messages the handler of a transaction returns (`[]` if it fails) -/
-def execOut (w : World) (sender : String) (funds : List Coin) (msg : ExecMsg) (txi : Option Nat) : List SubMsg :=
+/-- what the handler of a transaction returns: the new store and the messages (`(old store, [])` if
+it fails) -/
+def execRes (w : World) (sender : String) (funds : List Coin) (msg : ExecMsg) (txi : Option Nat) : CState × List SubMsg :=
   match execute w.c (w.env txi) { sender := sender, funds := funds } msg with
-  | .ok (_, out) => out
-  | .error _ => []
+  | .ok r => r
+  | .error _ => (w.c, [])
 
-/-- staked asset newly forwarded toward the staker by a response (a recovery re-sends, it does not add) -/
-def fwdDelta (S D : String) (out : List SubMsg) : ExecMsg → Nat
-  | .recover .. => 0
-  | _ => trSum S D out
-
-/-- counters after a committed transaction whose handler returned `out` -/
-def ghostExec (w : World) (g : WGhost) (funds : List Coin) (msg : ExecMsg) (out : List SubMsg) : WGhost :=
+/-- counters after a committed transaction whose handler returned `res` -/
+def ghostExec (w : World) (g : WGhost) (funds : List Coin) (msg : ExecMsg) (res : CState × List SubMsg) : WGhost :=
   let X := w.c.config.lstDenom
   let D := w.c.config.proto.ibcDenom
   let S := w.c.config.native.staker
@@ -53,9 +52,13 @@ def ghostExec (w : World) (g : WGhost) (funds : List Coin) (msg : ExecMsg) (out 
       | .liquidUnstake => g.donL
       | _ => g.donL + coinSum X funds),
     swept := g.swept + sweptDelta w.c msg,
-    paid := g.paid + paidDelta w.self D out msg,
+    paid := g.paid + paidDelta w.self D res.2 msg,
     donD := g.donD + coinSum D funds - consumedD D funds msg,
-    fwd := g.fwd + fwdDelta S D out msg }
+    fwd := g.fwd + fwdDelta S D res.2 msg,
+    setAside := g.setAside + setAsideDelta w.c res.1 msg,
+    rebaseN := (match msg with
+      | .resumeContract n _ _ => (n : Int) + g.setAside + g.swept - g.fwd
+      | _ => g.rebaseN) }
 
 theorem cfginv_reach {s : CState} (h : CReach s) : CfgInv s := by
   obtain ⟨env, info, msg, s0, out, evs, hi, rfl⟩ := h
@@ -81,7 +84,7 @@ theorem wpkt_after_handler {w : World} {c' : CState} {bal1 : Bal} (hp : WPkt w)
 theorem exec_winv {w w' : World} {g : WGhost} {sender : String} {funds : List Coin} {msg : ExecMsg} {f : Faults}
     {txi : Option Nat} {calls : List Call} (hr : CReach w.c) (hi : WInv w g) (hs : sender ≠ w.self)
     (hok : MsgOKc w.c w.self sender msg) (hx : runExecCore w sender funds msg f txi = (some w', calls)) :
-    WInv w' (ghostExec w g funds msg (execOut w sender funds msg txi)) := by
+    WInv w' (ghostExec w g funds msg (execRes w sender funds msg txi)) := by
   have hci := cinv_reach hr
   have hcf := cfginv_reach hr
   unfold runExecCore at hx
@@ -106,8 +109,8 @@ theorem exec_winv {w w' : World} {g : WGhost} {sender : String} {funds : List Co
           have := congrArg Prod.fst hx
           simpa using this
         subst hw'
-        have hout : execOut w sender funds msg txi = msgs := by
-          unfold execOut
+        have hout : execRes w sender funds msg txi = (c', msgs) := by
+          unfold execRes
           simp only [World.env] at hexec ⊢
           rw [hexec]
         rw [hout]
@@ -141,7 +144,12 @@ theorem exec_winv {w w' : World} {g : WGhost} {sender : String} {funds : List Co
         have hbL := hb1 w.c.config.lstDenom
         have hbD := hb1 w.c.config.proto.ibcDenom
         have hlw := m11 w.c.config.native.staker w.c.config.proto.ibcDenom
-        refine ⟨m1, ?_, ?_, ?_, ?_⟩
+        have hnat := factsD.nat
+        refine ⟨m1, ?_, ?_, ?_, ?_, ?_⟩
+        rotate_left 4
+        · rw [m7]
+          have h5 := hi.n1
+          cases msg <;> simp only [ghostExec, NatSpec, fwdDelta, setAsideDelta, sweptDelta] at hnat ⊢ <;> omega
         · rw [hl, m7]
           have h1 := hi.l1
           cases msg <;> simp only [ghostExec, SupSpec] at hsup ⊢ <;> omega
@@ -271,7 +279,7 @@ theorem refund_winv {w : World} {g : WGhost} {p : ChainPkt} {st : PktStatus} (hr
   rw [← refundedAmt_eq_refW] at hL hD
   have hW := locW_setState w.c.config.native.staker w.c.config.proto.ibcDenom .refunded hi.pkt.nodup hpm
   unfold refundWorld
-  refine ⟨⟨?_, ?_, ?_, ?_, ?_⟩, hi.l1, ?_, ?_, ?_⟩
+  refine ⟨⟨?_, ?_, ?_, ?_, ?_⟩, hi.l1, ?_, ?_, ?_, hi.n1⟩
   · intro q hq
     obtain ⟨q0, hq0, rfl⟩ := mem_setPktState hq
     have := hi.pkt.sender q0 hq0
@@ -351,7 +359,7 @@ theorem deliver_winv {w : World} {g : WGhost} {p : ChainPkt} {rem : Bal} (hr : C
   rw [← refundedAmt_eq_refW] at hL hD
   have hW := locW_setState w.c.config.native.staker w.c.config.proto.ibcDenom .delivered hi.pkt.nodup hpm
   unfold deliverWorld
-  refine ⟨⟨?_, ?_, ?_, ?_, ?_⟩, hi.l1, ?_, ?_, ?_⟩
+  refine ⟨⟨?_, ?_, ?_, ?_, ?_⟩, hi.l1, ?_, ?_, ?_, hi.n1⟩
   · intro q hq
     obtain ⟨q0, hq0, rfl⟩ := mem_setPktState hq
     have := hi.pkt.sender q0 hq0
@@ -408,10 +416,10 @@ def EvOK (w : World) : Event → Prop
 def wgstep (w : World) (g : WGhost) (e : Event) : WGhost :=
   if (step w e).committed then
     match e with
-    | .exec sender funds msg _ txi => ghostExec w g funds msg (execOut w sender funds msg txi)
+    | .exec sender funds msg _ txi => ghostExec w g funds msg (execRes w sender funds msg txi)
     | .hook channel ns coin msg _ =>
       match deriveIntermediateSender channel ns w.chainPrefix with
-      | some acct => ghostExec w g [coin] msg (execOut w acct [coin] msg (some 0))
+      | some acct => ghostExec w g [coin] msg (execRes w acct [coin] msg (some 0))
       | none => g
     | .donate _ coin =>
       { g with donL := g.donL + coinSum w.c.config.lstDenom [coin],
@@ -427,7 +435,7 @@ def wgstep (w : World) (g : WGhost) (e : Event) : WGhost :=
 theorem winv_frame {w w' : World} {g : WGhost} (hi : WInv w g) (hc : w'.c = w.c) (hs : w'.self = w.self)
     (hp : w'.pkts = w.pkts) (hn : w'.nextSeq = w.nextSeq) (hsup : w'.supply = w.supply)
     (hb : ∀ X, w'.bal w.self X = w.bal w.self X) : WInv w' g := by
-  refine ⟨⟨?_, ?_, ?_, ?_, ?_⟩, ?_, ?_, ?_, ?_⟩
+  refine ⟨⟨?_, ?_, ?_, ?_, ?_⟩, ?_, ?_, ?_, ?_, by rw [hc]; exact hi.n1⟩
   · rw [hp, hs]; exact hi.pkt.sender
   · rw [hp, hn]; exact hi.pkt.seqLt
   · rw [hp]; exact hi.pkt.nodup
@@ -441,7 +449,7 @@ theorem winv_frame {w w' : World} {g : WGhost} (hi : WInv w g) (hc : w'.c = w.c)
 theorem runExec_winv {w : World} {g : WGhost} {sender : String} {funds : List Coin} {msg : ExecMsg} {f : Faults}
     {txi : Option Nat} (hr : CReach w.c) (hi : WInv w g) (hs : sender ≠ w.self) (hok : MsgOKc w.c w.self sender msg) :
     WInv (runExec w sender funds msg f txi).w
-      (if (runExec w sender funds msg f txi).committed then ghostExec w g funds msg (execOut w sender funds msg txi) else g) := by
+      (if (runExec w sender funds msg f txi).committed then ghostExec w g funds msg (execRes w sender funds msg txi) else g) := by
   unfold runExec
   cases hcore : runExecCore w sender funds msg f txi with
   | mk o calls =>
@@ -581,7 +589,7 @@ theorem step_winv {w : World} {g : WGhost} (e : Event) (hr : CReach w.c) (hi : W
       simp only [↓reduceIte]
       have h1 := (bankMove_ok (show sender ≠ w.self from hok) hb w.c.config.lstDenom).1
       have h1D := (bankMove_ok (show sender ≠ w.self from hok) hb w.c.config.proto.ibcDenom).1
-      refine ⟨⟨hi.pkt.sender, hi.pkt.seqLt, hi.pkt.nodup, hi.pkt.keyLt, hi.pkt.p2⟩, hi.l1, ?_, ?_, hi.f1⟩
+      refine ⟨⟨hi.pkt.sender, hi.pkt.seqLt, hi.pkt.nodup, hi.pkt.keyLt, hi.pkt.p2⟩, hi.l1, ?_, ?_, hi.f1, hi.n1⟩
       · have h2 := hi.l2
         simp only at h2 ⊢
         omega
@@ -600,7 +608,7 @@ theorem step_winv {w : World} {g : WGhost} (e : Event) (hr : CReach w.c) (hi : W
         · subst hd; simp
         · have : ¬ X = coin.denom := fun e => hd e.symm
           simp [hd, this]
-      refine ⟨⟨hi.pkt.sender, hi.pkt.seqLt, hi.pkt.nodup, hi.pkt.keyLt, hi.pkt.p2⟩, hi.l1, ?_, ?_, hi.f1⟩
+      refine ⟨⟨hi.pkt.sender, hi.pkt.seqLt, hi.pkt.nodup, hi.pkt.keyLt, hi.pkt.p2⟩, hi.l1, ?_, ?_, hi.f1, hi.n1⟩
       · have h2 := hi.l2
         have := hbX w.c.config.lstDenom
         simp only at h2 this ⊢
@@ -642,7 +650,7 @@ theorem winv_boot {env : Env} {info : Info} {msg : InstantiateMsg} {c0 : CState}
   simp only [bind_ok, pure_ok, add64_ok] at hi
   obtain ⟨_, _, _, _, _, _, _, _, _, _, _, _, _, _, hi⟩ := hi
   cases hi
-  refine ⟨⟨?_, ?_, ?_, ?_, ?_⟩, ?_, ?_, ?_, ?_⟩
+  refine ⟨⟨?_, ?_, ?_, ?_, ?_⟩, ?_, ?_, ?_, ?_, by simp [bootWorld]⟩
   · intro p hp; simp [bootWorld] at hp
   · intro p hp; simp [bootWorld] at hp
   · simp [bootWorld]
